@@ -1739,7 +1739,7 @@ impl Part for Roundtrip {
         "roundtrip"
     }
     fn cases(&self, tier: Tier) -> u32 {
-        tier.pick(8_000, 300_000)
+        tier.pick(40_000, 300_000)
     }
     fn strategy(&self, _: Tier) -> BoxedStrategy<RtCase> {
         (query_strategy(), bytes(160), bytes(240), bytes(240)).prop_map(|(q, lex, lay1, lay2)| RtCase { q, lex, lay1, lay2 }).boxed()
@@ -2135,7 +2135,7 @@ impl Part for Mutations {
         "mutations"
     }
     fn cases(&self, tier: Tier) -> u32 {
-        tier.pick(60_000, 800_000)
+        tier.pick(150_000, 800_000)
     }
     fn strategy(&self, _: Tier) -> BoxedStrategy<MutCase> {
         let q = prop_oneof![
